@@ -42,7 +42,15 @@ def payload_class(framing, m, raw):
     return 'plain'
 
 
-def one(acc, framing, side, m, unit, tid, pid):
+def one(acc, framing, side, m, unit, tid, pid, debug=False):
+    if debug:
+        from harness.repo import DebugLogging
+        with DebugLogging():
+            return _one(acc, framing, side, m, unit, tid, pid, dict(debug_logging=True))
+    return _one(acc, framing, side, m, unit, tid, pid, {})
+
+
+def _one(acc, framing, side, m, unit, tid, pid, extra):
     """Framing is isolated from PDU conformance (C01/C02): the expected ADU wraps the
     bytes the object itself encodes to, and the delivered message is compared with what
     the decoder factory makes of that same bare PDU."""
@@ -50,7 +58,7 @@ def one(acc, framing, side, m, unit, tid, pid):
     o = bind.to_obj(dict(m, unit=unit, tid=tid, pid=pid))
     raw = bind.pdu_bytes(o)
     pc = payload_class(framing, m, raw)
-    wit = dict(framing=framing, side=side, pdu=pdu.encode(m).hex(), unit=unit, tid=tid, pid=pid)
+    wit = dict(framing=framing, side=side, pdu=pdu.encode(m).hex(), unit=unit, tid=tid, pid=pid, **extra)
     cfg = '%s/%s/%s' % (framing, side, cname)
     acc.inc('evaluations')
     fr = framers.make(framing, side)
@@ -240,6 +248,7 @@ def shard(args):
             acc.add('nontrivial', (framing, side, pdu.encode(m)))
         for i, m in enumerate(ms):
             rebuild_cases(acc, framing, side, m, ms[(i + 3) % len(ms)])
+            one(acc, framing, side, m, 0x11, 0x0102, 0, debug=True)      # ... and with the library's debug logging switched on
         for m in (catalog.LARGE_REQUESTS if side == 'req' else catalog.LARGE_RESPONSES):
             for unit in (0, 1, 17, 0xFF):
                 one(acc, framing, side, m, unit, 0xFFFF, 0)
@@ -304,5 +313,5 @@ def replay(w):
         rebuild_cases(acc, w['framing'], w['side'], m, other)
         vs = [v for v in acc.violations if v['witness'] == w]
         return bool(vs), '\n'.join('%s: %s' % (v['sig'], v['msg']) for v in vs) or 'no violation'
-    one(acc, w['framing'], w['side'], m, w['unit'], w['tid'], w['pid'])
+    one(acc, w['framing'], w['side'], m, w['unit'], w['tid'], w['pid'], debug=bool(w.get('debug_logging')))
     return bool(acc.violations), '\n'.join('%s: %s' % (v['sig'], v['msg']) for v in acc.violations) or 'no violation'
